@@ -13,10 +13,10 @@ theorem lenArg {a b : Bytes} (h : a = b) : a.length = b.length := congrArg _ h
 /-- bridge: the regenerated prefixes are the literals of the source (`'x' 'o' 'd' 'm' 'n' 'r' 'u'`, "eACL",
 "nnsHasAlias", "est", "cnr") -/
 theorem prefixes_are_literals :
-    byteOf Generated.container_containerKeyPrefix = 120 ∧ byteOf Generated.container_ownerKeyPrefix = 111 ∧
-    byteOf Generated.container_deletedKeyPrefix = 100 ∧ byteOf Generated.container_containersWithMetaPrefix = 109 ∧
-    byteOf Generated.container_nodesPrefix = 110 ∧ byteOf Generated.container_replicasNumberPrefix = 114 ∧
-    byteOf Generated.container_nextEpochNodesPrefix = 117 ∧
+    (Generated.container_containerKeyPrefix_bytes.headD 0) = 120 ∧ (Generated.container_ownerKeyPrefix_bytes.headD 0) = 111 ∧
+    (Generated.container_deletedKeyPrefix_bytes.headD 0) = 100 ∧ (Generated.container_containersWithMetaPrefix_bytes.headD 0) = 109 ∧
+    (Generated.container_nodesPrefix_bytes.headD 0) = 110 ∧ (Generated.container_replicasNumberPrefix_bytes.headD 0) = 114 ∧
+    (Generated.container_nextEpochNodesPrefix_bytes.headD 0) = 117 ∧
     Generated.container_eACLPrefix = [101, 65, 67, 76] ∧
     Generated.container_nnsHasAliasKey_bytes = [110, 110, 115, 72, 97, 115, 65, 108, 105, 97, 115] ∧
     Generated.container_singleEstimatePrefix_bytes = [101, 115, 116] ∧
@@ -27,12 +27,12 @@ pairwise different byte encodings, and inside a family the encoding determines t
 `storage.Get/Put/Delete` on one family never touches another one. -/
 theorem families_disjoint (k1 k2 : Key) (h1 : k1.WF) (h2 : k2.WF) (h : k1.enc = k2.enc) : k1 = k2 := by
   cases k1 <;> cases k2 <;>
-    simp [Key.enc, Key.WF, byteOf, Generated.container_containerKeyPrefix, Generated.container_ownerKeyPrefix,
-      Generated.container_deletedKeyPrefix, Generated.container_containersWithMetaPrefix, Generated.container_eACLPrefix,
+    simp [Key.enc, Key.WF, byteOf, Generated.container_containerKeyPrefix_bytes, Generated.container_ownerKeyPrefix_bytes,
+      Generated.container_deletedKeyPrefix_bytes, Generated.container_containersWithMetaPrefix_bytes, Generated.container_eACLPrefix,
       Generated.container_nnsHasAliasKey_bytes, Generated.container_neofsIDContractKey_bytes,
       Generated.container_balanceContractKey_bytes, Generated.container_netmapContractKey_bytes,
-      Generated.container_nnsContractKey_bytes, Generated.container_nnsRootKey_bytes, Generated.container_nodesPrefix,
-      Generated.container_replicasNumberPrefix, Generated.container_nextEpochNodesPrefix,
+      Generated.container_nnsContractKey_bytes, Generated.container_nnsRootKey_bytes, Generated.container_nodesPrefix_bytes,
+      Generated.container_replicasNumberPrefix_bytes, Generated.container_nextEpochNodesPrefix_bytes,
       Generated.container_singleEstimatePrefix_bytes, Generated.container_estimateKeyPrefix_bytes] at h1 h2 h ⊢ <;>
     first
       | exact h
@@ -40,28 +40,28 @@ theorem families_disjoint (k1 k2 : Key) (h1 : k1.WF) (h2 : k2.WF) (h : k1.enc = 
       | exact List.append_inj h (by omega)
 
 /-- `storage.Find('x')` (`Count`, `getAllContainers`) iterates over family `x` only (no length assumption) -/
-theorem find_x_exact (k : Key) (h : [byteOf Generated.container_containerKeyPrefix] <+: k.enc) : ∃ cid, k = .x cid := by
+theorem find_x_exact (k : Key) (h : [(Generated.container_containerKeyPrefix_bytes.headD 0)] <+: k.enc) : ∃ cid, k = .x cid := by
   cases k <;>
-    simp [Key.enc, byteOf, Generated.container_containerKeyPrefix, Generated.container_ownerKeyPrefix,
-      Generated.container_deletedKeyPrefix, Generated.container_containersWithMetaPrefix, Generated.container_eACLPrefix,
+    simp [Key.enc, byteOf, Generated.container_containerKeyPrefix_bytes, Generated.container_ownerKeyPrefix_bytes,
+      Generated.container_deletedKeyPrefix_bytes, Generated.container_containersWithMetaPrefix_bytes, Generated.container_eACLPrefix,
       Generated.container_nnsHasAliasKey_bytes, Generated.container_neofsIDContractKey_bytes,
       Generated.container_balanceContractKey_bytes, Generated.container_netmapContractKey_bytes,
-      Generated.container_nnsContractKey_bytes, Generated.container_nnsRootKey_bytes, Generated.container_nodesPrefix,
-      Generated.container_replicasNumberPrefix, Generated.container_nextEpochNodesPrefix,
+      Generated.container_nnsContractKey_bytes, Generated.container_nnsRootKey_bytes, Generated.container_nodesPrefix_bytes,
+      Generated.container_replicasNumberPrefix_bytes, Generated.container_nextEpochNodesPrefix_bytes,
       Generated.container_singleEstimatePrefix_bytes, Generated.container_estimateKeyPrefix_bytes,
       List.cons_prefix_cons] at h ⊢
 
 /-- `storage.Find('o' ‖ arg)` (`List`, `ContainersOf`) iterates over family `o` only, and `arg` is matched
 against `owner ‖ cid` (no length assumption) -/
-theorem find_o_exact (k : Key) (arg : Bytes) (h : (byteOf Generated.container_ownerKeyPrefix :: arg) <+: k.enc) :
+theorem find_o_exact (k : Key) (arg : Bytes) (h : ((Generated.container_ownerKeyPrefix_bytes.headD 0) :: arg) <+: k.enc) :
     ∃ ow cid, k = .o ow cid ∧ arg <+: ow ++ cid := by
   cases k <;>
-    simp [Key.enc, byteOf, Generated.container_containerKeyPrefix, Generated.container_ownerKeyPrefix,
-      Generated.container_deletedKeyPrefix, Generated.container_containersWithMetaPrefix, Generated.container_eACLPrefix,
+    simp [Key.enc, byteOf, Generated.container_containerKeyPrefix_bytes, Generated.container_ownerKeyPrefix_bytes,
+      Generated.container_deletedKeyPrefix_bytes, Generated.container_containersWithMetaPrefix_bytes, Generated.container_eACLPrefix,
       Generated.container_nnsHasAliasKey_bytes, Generated.container_neofsIDContractKey_bytes,
       Generated.container_balanceContractKey_bytes, Generated.container_netmapContractKey_bytes,
-      Generated.container_nnsContractKey_bytes, Generated.container_nnsRootKey_bytes, Generated.container_nodesPrefix,
-      Generated.container_replicasNumberPrefix, Generated.container_nextEpochNodesPrefix,
+      Generated.container_nnsContractKey_bytes, Generated.container_nnsRootKey_bytes, Generated.container_nodesPrefix_bytes,
+      Generated.container_replicasNumberPrefix_bytes, Generated.container_nextEpochNodesPrefix_bytes,
       Generated.container_singleEstimatePrefix_bytes, Generated.container_estimateKeyPrefix_bytes,
       List.cons_prefix_cons] at h ⊢
   exact ⟨_, _, ⟨rfl, rfl⟩, h⟩
@@ -79,21 +79,21 @@ def aliasLike (cid : Bytes) : Prop := [110, 115, 72, 97, 115, 65, 108, 105, 97, 
 /-- The known exception (DESIGN.md section 7, C04): the placement methods iterate with the prefix
 `'n' ‖ cid ‖ …`; for an id that begins with "nsHasAlias" this prefix also matches alias keys … -/
 theorem aliasLike_overlap : ∃ cid cid' : Bytes, cid.length = 32 ∧ cid'.length = 32 ∧ aliasLike cid ∧
-    (byteOf Generated.container_nodesPrefix :: cid ++ [0]) <+: (Key.alias cid').enc := by
+    ((Generated.container_nodesPrefix_bytes.headD 0) :: cid ++ [0]) <+: (Key.alias cid').enc := by
   refine ⟨[110, 115, 72, 97, 115, 65, 108, 105, 97, 115] ++ List.replicate 22 0, List.replicate 32 0, by decide, by decide,
     ⟨List.replicate 22 0, rfl⟩, ⟨List.replicate 9 0, by decide⟩⟩
 
 /-- … and for every other 32-byte id the prefix `'n' ‖ cid` selects family `nodes` only. -/
 theorem find_nodes_exact (cid : Bytes) (hc : cid.length = 32) (hna : ¬ aliasLike cid) (k : Key) (hk : k.WF)
-    (h : (byteOf Generated.container_nodesPrefix :: cid) <+: k.enc) : ∃ rest, k = .nodes rest := by
+    (h : ((Generated.container_nodesPrefix_bytes.headD 0) :: cid) <+: k.enc) : ∃ rest, k = .nodes rest := by
   have hlen := List.IsPrefix.length_le h
   cases k <;>
-    simp [Key.enc, Key.WF, byteOf, Generated.container_containerKeyPrefix, Generated.container_ownerKeyPrefix,
-      Generated.container_deletedKeyPrefix, Generated.container_containersWithMetaPrefix, Generated.container_eACLPrefix,
+    simp [Key.enc, Key.WF, byteOf, Generated.container_containerKeyPrefix_bytes, Generated.container_ownerKeyPrefix_bytes,
+      Generated.container_deletedKeyPrefix_bytes, Generated.container_containersWithMetaPrefix_bytes, Generated.container_eACLPrefix,
       Generated.container_nnsHasAliasKey_bytes, Generated.container_neofsIDContractKey_bytes,
       Generated.container_balanceContractKey_bytes, Generated.container_netmapContractKey_bytes,
-      Generated.container_nnsContractKey_bytes, Generated.container_nnsRootKey_bytes, Generated.container_nodesPrefix,
-      Generated.container_replicasNumberPrefix, Generated.container_nextEpochNodesPrefix,
+      Generated.container_nnsContractKey_bytes, Generated.container_nnsRootKey_bytes, Generated.container_nodesPrefix_bytes,
+      Generated.container_replicasNumberPrefix_bytes, Generated.container_nextEpochNodesPrefix_bytes,
       Generated.container_singleEstimatePrefix_bytes, Generated.container_estimateKeyPrefix_bytes,
       List.cons_prefix_cons] at h hk hlen ⊢ <;>
     first
